@@ -67,6 +67,13 @@ type RunResult struct {
 	Rules       map[string]int `json:"rules,omitempty"`
 	Kinds       map[string]int `json:"kinds,omitempty"`
 	MaxStepGapUs int64         `json:"max_step_gap_us"` // longest silence between two transition steps
+	// real entry point only, recorded by the heartbeat receiver's own goroutine: its timer
+	// fired ExpirySilenceUs after the last heartbeat IT received (-1: never received one),
+	// with an inactivity interval of TimeoutUs, after Beats received heartbeats
+	TimerExpired    bool  `json:"timer_expired,omitempty"`
+	ExpirySilenceUs int64 `json:"expiry_silence_us,omitempty"`
+	TimeoutUs       int64 `json:"timeout_us,omitempty"`
+	Beats           int64 `json:"beats,omitempty"`
 	Dups        int            `json:"dups"`           // duplications of multi-provider processes
 	DupSameIdent int           `json:"dup_same_ident"` // ... holding two channels with one identifier
 	ProcCount   uint64         `json:"proc_count"`
